@@ -281,6 +281,40 @@ ARGP = ('def pre(x):\n    return x\n\n\ndef set_cli_args(argument_parser):\n    
 CLASSES = {0: None, 1: "", 2: "import os\n\nX = 1\n", 3: 'import os\n\n\nclass ConfigClass(object):\n    """\n    Old.\n\n    :cvar q: old q\n    """\n\n    q: int = 0\n\n\nY = 2\n'}
 
 
+import contextlib as _ctx  # noqa: E402
+
+
+@_ctx.contextmanager
+def _untraced_black(ef):
+    """run the real black, but outside the tracer"""
+    from chx.shim import REPLAYING
+
+    if REPLAYING():
+        yield
+        return
+    import types
+
+    from crosshair.tracers import NoTracing
+
+    real = ef.black
+
+    def fmt(src_contents, mode=None):
+        with NoTracing():
+            return real.format_str(str(src_contents), mode=mode)
+
+    def mk_mode(line_length=119, is_pyi=False, string_normalization=False, **_kw):
+        with NoTracing():  # `set()` made under the tracer is a CrossHair shell, which black's Mode rejects
+            return real.Mode(
+                target_versions=set(), line_length=int(line_length), is_pyi=bool(is_pyi), string_normalization=bool(string_normalization)
+            )
+
+    ef.__dict__["black"] = types.SimpleNamespace(format_str=fmt, Mode=mk_mode)
+    try:
+        yield
+    finally:
+        ef.__dict__["black"] = real
+
+
 def sync_thrice(class_state, wrap):
     import contextlib
     import io
@@ -320,7 +354,7 @@ def sync_thrice(class_state, wrap):
 
         snaps = []
         for run in (1, 2, 3):
-            with contextlib.redirect_stdout(io.StringIO()), contextlib.redirect_stderr(io.StringIO()), shim(ef, black=black_stub):
+            with contextlib.redirect_stdout(io.StringIO()), contextlib.redirect_stderr(io.StringIO()), _untraced_black(ef):
                 try:
                     ground_truth(args, files["function"])
                 except Exception as e:
@@ -353,6 +387,7 @@ def sync_thrice(class_state, wrap):
 ob("C12", "K6.sync_thrice", {"class_state": R(0, 3), "wrap": BOOL}, T=900, tpath=200,
    funcs=["cdd.shared.conformance.ground_truth", "cdd.shared.conformance._conform_filename", "cdd.shared.emit.file.file", "cdd.function.parse.function",
           "cdd.class_.emit.class_", "cdd.argparse_function.emit.argparse_function"],
-   assumes=["stub: black.format_str -> identity in cdd.shared.emit.file under the engine"],
+   assumes=["black.format_str runs for real but OUTSIDE the tracer (its input is concrete; it is a large pure-Python program), because whether the second run rewrites a file "
+            "depends on black's normalisation of the first run's output"],
    bound="the whole sync with a method as truth, an existing argparse target and a class target file that is missing / empty / holds unrelated code / holds unrelated code "
          "and a stale class (solver-enumerated), run three times: valid Python, truth untouched, unrelated code kept, class takes the truth's interface, runs 2 and 3 byte-identical")(sync_thrice)
